@@ -1,9 +1,10 @@
 #!/bin/bash
 # usage: seedeval.sh <worktree-dir> <seed-id> <property> [checks...]
 # 1. verifies a seeded change independently in a fresh scratch worktree (builds, existing tests pass,
-#    demo fails with / passes without); 2. applies it to /repo, runs the named checks, restores /repo;
+#    demo fails with / passes without); 2. runs the named checks built against that worktree with the change
+#    applied (VERIF_REPO) - /repo is not touched, so several seeds can be evaluated at once;
 # 3. stores patch, demo and meta.json under /verif/seeded/<seed-id>/.
-[ -z "$VERIF_NOLOCK" ] && exec env VERIF_NOLOCK=1 VERIF_SCRATCH=/tmp/verif-scratch flock -x /tmp/.verif-repo.lock "$0" "$@"
+export VERIF_NOLOCK=1 VERIF_SCRATCH=/tmp/verif-scratch/$2
 wt=$1; sid=$2; prop=$3; shift 3; checks=${@:-$prop}
 export GOFLAGS=-mod=mod GOPROXY=off
 [ -s "$wt/MUTANT.diff" ] || { echo "no MUTANT.diff in $wt"; exit 2; }
@@ -29,31 +30,30 @@ if [ -n "$demo" ]; then
   if run_demo; then demo_without=pass; else demo_without=fail; fi
 fi
 echo "verify: build=$build_ok existing_tests=$tests_ok demo_with_change=$demo_with demo_without_change=$demo_without (demo files: $demo)"
-cleanup; trap - EXIT
-# run the checks against /repo with the change applied
-git -C /repo diff --quiet || { echo "/repo dirty"; exit 2; }
-git -C /repo apply "$wt/MUTANT.diff" || exit 2
+# run the checks against the scratch worktree with the change applied (VERIF_REPO), /repo stays untouched
+for d in $demo; do rm -f "$scratch/$d"; done
+( cd "$scratch" && git apply "$wt/MUTANT.diff" ) || exit 2
 results=""
 for c in $checks; do
-  out=$(cd ${VERIF_ROOT:-/verif} && ./check $c quick 2>&1); rc=$?
+  out=$(cd ${VERIF_ROOT:-/verif} && VERIF_REPO=$scratch VERIF_JOBS=${VERIF_JOBS:-6} ./check $c quick 2>&1); rc=$?
   v=$(echo "$out" | grep -m1 -o 'VIOLATION C[0-9]*/[^:]*' | head -1)
   results="$results $c:quick:rc=$rc[$v]"
-  if [ $rc -eq 0 ] && [ "$c" = "$prop" ]; then
-    out=$(cd ${VERIF_ROOT:-/verif} && ./check $c thorough 2>&1); rc=$?
+  if [ $rc -eq 0 ] && [ "$c" = "$prop" ] && [ -n "$SEED_THOROUGH" ]; then
+    out=$(cd ${VERIF_ROOT:-/verif} && VERIF_REPO=$scratch ./check $c thorough 2>&1); rc=$?
     v=$(echo "$out" | grep -m1 -o 'VIOLATION C[0-9]*/[^:]*' | head -1)
     results="$results $c:thorough:rc=$rc[$v]"
   fi
 done
-git -C /repo checkout -- . ; git -C /repo status --short | grep -v '^??' | head -3
+cleanup; trap - EXIT
 echo "checks:$results"
 mkdir -p /verif/seeded/$sid
 cp "$wt/MUTANT.diff" /verif/seeded/$sid/patch.diff
-for d in $demo; do cp "$wt/$d" /verif/seeded/$sid/$(basename $d).txt; done
+for d in $demo; do cp "$wt/$d" /verif/seeded/$sid/$(echo $d | tr / _).txt; done
 [ -f "$wt/MUTANT.md" ] && cp "$wt/MUTANT.md" /verif/seeded/$sid/description.md
 python3 - "$sid" "$prop" "$build_ok" "$tests_ok" "$demo_with" "$demo_without" "$results" <<'PY'
 import json,sys
 sid,prop,b,t,dw,dwo,res=sys.argv[1:8]
 json.dump({"seed_id":sid,"breaks_property":prop,"verified":{"builds":b,"existing_tests_pass":t,"demo_with_change":dw,"demo_without_change":dwo},
- "check_results":res.split(),"ran":"seedeval.sh: scratch worktree of /repo HEAD + git apply patch.diff; go build/test; demo; then git -C /repo apply, ./check <id> quick (thorough if quick missed), git checkout"},
+ "check_results":res.split(),"ran":"seedeval.sh: scratch worktree of /repo HEAD + git apply patch.diff; go build/test; demo with and without the change; then ./check <id> quick built against that worktree with the change applied (VERIF_REPO; thorough too when SEED_THOROUGH is set and quick missed); /repo itself is never patched"},
  open('/verif/seeded/%s/meta.json'%sid,'w'),indent=1)
 PY
